@@ -342,7 +342,15 @@ pub fn run(ctx: &Ctx) -> Report {
             let g = &grids[b];
             let mut acc = Acc::new(g.len());
             for s in first..first + n {
-                stream_pass(b, g, None, ctx.sub_seed(&[1, b as u64, s as u64]), &mut acc);
+                let seed = ctx.sub_seed(&[1, b as u64, s as u64]);
+                if let Err(msg) = guarded(|| stream_pass(b, g, None, seed, &mut acc)) {
+                    rep.violation(
+                        format!("C03/count-panics/{}", panic_class(&msg)),
+                        format!("hll(b={}): add_hashed/count panicked during a random hash stream (seed #{}): {}", b, s, msg),
+                        json!({"b": b, "stream_seed": seed, "seed_index": s}),
+                    );
+                    return;
+                }
                 let mut h = CaseHash::new("stream");
                 h.push(b as u64);
                 h.push(s as u64);
